@@ -74,6 +74,13 @@ def gen(tier, rnd):
         case(['B 1', 'e 1 1', 'e 1 2', 'e 1 1', 'b 1 1', 'I 100', 'e 1 3', 'I %d' % (2 * T)], to)
         case(['B 1', 'B 2', 'e 1 1', 'b 2 1', 'e 2 2', 'R 3', 'F'], to)
         case(['B 1 ', 'b 1 5', 'b 1 3', 'b 1 99', 'e 1 99', 'I %d' % (400000)], to)
+    # 2b. the peer rejects a (Non-confirmable) notification with a Reset while the session has OTHER holders as well: only the observation goes
+    for to in (1, 10):
+        T = to * 1000
+        case(['R 1 hold', 'O 1', 'N', 'I 10', 'K 1', 'I %d' % (2 * T), 'S 1', 'I 100', 'U 1', 'I 100', 'I %d' % (2 * T)], to)
+        case(['A 1', 'O 1', 'N', 'I 10', 'K 1', 'I %d' % (2 * T), 'a 1', 'I 100', 'I %d' % (2 * T)], to)
+        case(['O 1', 'R 1 hold', 'N', 'N', 'K 1', 'N', 'I %d' % (3 * T), 'R 1', 'U 1', 'I %d' % (2 * T)], to)
+        case(['O 1', 'O 2', 'R 2 hold', 'A 1', 'N', 'K 2', 'K 1', 'I %d' % (2 * T), 'a 1', 'U 2', 'I %d' % (2 * T)], to, 1)
     # 3b. stream sessions (TCP): connect, requests, holders, the peer disconnects (state NONE), reclamation once nothing refers to the session
     for to in (1, 10):
         T = to * 1000
